@@ -106,7 +106,11 @@ def finish(ctx: Context) -> int:
     matched = [i for i in failing if i.key in known]
     REPLAY_DIR.mkdir(parents=True, exist_ok=True)
     lines: list[str] = []
+    seen_known: set[str] = set()
     for i in matched:
+        if i.key in seen_known:
+            continue
+        seen_known.add(i.key)
         lines.append(f"KNOWN-FINDING: property={ctx.prop} {i.key} -- {known[i.key].get('what', i.detail)}")
     seen_keys: set[str] = set()
     for i in unknown:
@@ -172,7 +176,7 @@ def finish(ctx: Context) -> int:
             "rules": per_rule,
             "analysed": {**ctx.repo.stats(), **ctx.analysed},
             "not_decided": ctx.not_decided,
-            "known_findings_matched": [i.key for i in matched],
+            "known_findings_matched": sorted({i.key for i in matched}),
             "notes": ctx.notes,
             **ctx.extra,
         },
